@@ -68,6 +68,7 @@ type vSim struct {
 	maxTrans int
 	plain    bool // no adversarial replies, no unsolicited records, no transient failures
 	allowBad bool // allow foreign / wrong-type / short replies
+	seqZero  bool // request number 0 allowed
 	errAt    int  // with alwaysOK: the one request (by index) whose verdict is symbolic after all; -1: none
 	mid      bool // transient failures and unsolicited records also between the ACK and the data, and between data messages
 	recvs    int
@@ -84,7 +85,10 @@ type vSim struct {
 func newSim() *vSim {
 	s := &vSim{buf: make([]byte, 16+64), maxUnsol: vParam("unsol", 1), maxTrans: vParam("trans", 1), allowBad: vParam("bad", 1) != 0, failSendAt: -1, recvErrAt: -1, errAt: -1, mid: vParam("mid", 0) != 0}
 	s.nextSeq = vU32("seq0")
-	vAssume(s.nextSeq != 0)
+	s.seqZero = vParam("seqzero", 0) != 0 // the counter may pass through 0 (only in jobs without unsolicited records)
+	if !s.seqZero {
+		vAssume(s.nextSeq != 0)
+	}
 	return s
 }
 
@@ -104,7 +108,9 @@ func (s *vSim) Send(msg syscall.NetlinkMessage) (uint32, error) {
 	}
 	seq := s.nextSeq
 	s.nextSeq++
-	vAssume(s.nextSeq != 0) // request number 0 is outside the domain (DESIGN.md, C08)
+	if !s.seqZero {
+		vAssume(s.nextSeq != 0) // request number 0 is outside the domain (DESIGN.md, C08)
+	}
 	rq := &vRequest{seq: seq, typ: msg.Header.Type, flags: msg.Header.Flags, pid: msg.Header.Pid, data: append([]byte(nil), msg.Data...)}
 	idx := len(s.reqs)
 	s.reqs = append(s.reqs, rq)
@@ -587,10 +593,15 @@ func VH_ClientSetters() {
 		// setters that did not wait come first, and nobody collected their ACKs (the kernel's verdict on
 		// each is symbolic): the command under test still sends its own request, whatever it returns
 		for i := 0; i < n; i++ {
-			if vChoose("nowaitkind", 2) == 0 {
+			switch vChoose("nowaitkind", 4) {
+			case 0:
 				c.SetBacklogWaitTime(vI32("prewait"), NoWait)
-			} else {
+			case 1:
 				c.SetEnabled(vBool("preenabled"), NoWait)
+			case 2:
+				c.SetImmutable(NoWait) // whether the kernel accepted the lock is not known to the client
+			case 3:
+				c.SetFailure(FailureMode(vU32("prefm")), NoWait)
 			}
 		}
 		vAssert(len(s.reqs) == pre+n, "C16/exactly-one-request")
